@@ -28,7 +28,8 @@ THEOREMS = [P + n for n in (
     'average_by_is_group_mean', 'reachable_inv', 'split_channel_partitions', 'split_time_partitions',
     'tensor_entry', 'constructor_check_sound', 'merge_split_columns',
     'df_classification', 'df_default_class', 'reachable_inv_bin',
-    'applyOp_frame', 'sortBy_frame', 'keep_frame', 'timeAsChan_index_order')]
+    'applyOp_frame', 'sortBy_frame', 'keep_frame', 'timeAsChan_index_order',
+    'indicator_mean_pos_iff')]
 RULE = ('one case = initial Dataset/TemporalDataset (1-6 observations, sometimes 17-24 for sort '
         'stability; 1-4 channels; 1-4 time points; str/int descriptor columns with duplicate values, '
         'list- or array-typed; optionally a column with missing entries (None in a string column, NaN '
@@ -48,7 +49,12 @@ RULE = ('one case = initial Dataset/TemporalDataset (1-6 observations, sometimes
         'int64 / int32, the arrays the library returns are never normalised between operations on either '
         'the real side or the oracle side, and a template runs subset_time / split_time on singleton '
         'shapes n_obs == 1 / n_channel == 1 / n_time == 1 (where numpy a[:, :, idx] leaves a '
-        'Fortran-contiguous buffer) before time_as_channels / time_as_observations) are mixed '
+        'Fortran-contiguous buffer) before time_as_channels / time_as_observations; round 7: NON-FINITE '
+        'MEASUREMENTS are a value domain of every session -- 15 % of all cases (25 % in the failing-input '
+        'search) hold NaN / +inf / -inf / mixtures in a single cell, a few cells, a whole observation row, '
+        'a whole channel, a whole time slice or everywhere, and a template puts them into one condition '
+        '(time point) of a design with several conditions (bins) before average_by / bin_time, so that the '
+        'means of the OTHER groups must stay finite) are mixed '
         'with random sequences; a case is non-trivial when at least one operation was admissible '
         'and changed or queried the workspace; distinct = distinct (initial dataset, operation list)')
 BRANCHES = ['op:split_obs', 'op:split_channel', 'op:split_time', 'op:subset_obs', 'op:subset_channel',
@@ -78,12 +84,20 @@ BRANCHES = ['op:split_obs', 'op:split_channel', 'op:split_time', 'op:subset_obs'
             'layout:strided+time_as_channels', 'layout:neg+time_as_channels', 'layout:perm+time_as_channels',
             'layout:F-from-subset_time', 'layout:F-from-subset_time+time_as_channels',
             'layout:F-from-subset_time+time_as_observations', 'layout:perm-from-subset_time',
-            'layout:from-subset_time+other-op']
+            'layout:from-subset_time+other-op',
+            # round 7: non-finite measurements (NaN / +-inf in single cells, whole rows, whole channels)
+            'values:nan-cell', 'values:inf-cell', 'values:nonfinite-row', 'values:nonfinite-channel',
+            'average:nan-other-group', 'bin:nonfinite-other-bin']
 ASSUMPTIONS = [
     'measurements are small integers, so numpy means agree with exact rational means to 1e-9 (1e-6 in a '
     'session whose initial array is float32: numpy averages float32 data in float32); integer-typed '
     'measurement arrays are left out of sessions with a dtype-driven DataFrame round trip (from_df finds '
-    'the channels by their float dtype)',
+    'the channels by their float dtype); a measurement may also be NaN / +inf / -inf (round 7; only in '
+    'float-typed arrays): such a cell is a value that stays with its own observation / channel / time, and a '
+    'mean over cells is, per IEEE 754, NaN iff one of its own cells is NaN or both infinities are among '
+    'them, else the infinity among them, else the finite mean; the model side derives "its own cells" '
+    'from indicator sessions of the proved model (Props.C11.indicator_mean_pos_iff); `copy()` of a dataset '
+    'with a NaN measurement is not required to compare equal to its source (`__eq__` uses ==)',
     'descriptor columns are homogeneous (all int, all float, or all str) apart from missing entries, '
     'and key names of the four descriptor dictionaries are pairwise distinct in the initial dataset '
     '(the operations themselves may duplicate a key consistently); a missing entry is None in a '
@@ -97,7 +111,8 @@ ASSUMPTIONS = [
     'odd/even splits with a single (level-2) group and merges of parts with different channel / time '
     'counts must be rejected by the implementation (any exception), as the model has no result']
 TRUSTED_EXTRA = ['numpy: np.unique(return_index, return_inverse), np.argsort(kind="stable") (the unique '
-                 'stable sorting permutation), fancy indexing, np.isin, np.mean, reshape/repeat/tile; '
+                 'stable sorting permutation), fancy indexing, np.isin, np.mean (IEEE 754 on NaN / inf), '
+                 'reshape/repeat/tile; '
                  'pandas DataFrame column assignment and selection']
 
 OBS_KEYS, CHAN_KEYS, TIME_EXTRA = ['c', 'r', 's'], ['n', 'g'], ['ph']
@@ -552,7 +567,8 @@ def add_layout(rng, case, p_c=0.35):
     if 'dtype' not in init:
         r = rng.random()
         dt = 'float64' if r < 0.6 else 'float32' if r < 0.8 else rng.choice(['int64', 'int32'])
-        if dt.startswith('int') and any(o['name'] == 'df_default' for o in case['ops']):
+        if dt.startswith('int') and (init.get('nonfinite') or
+                                     any(o['name'] == 'df_default' for o in case['ops'])):
             dt = 'float32' if rng.random() < 0.5 else 'float64'
         if dt != 'float64':
             init['dtype'] = dt
@@ -591,8 +607,94 @@ def _layout_conversions(rng):
     return init, ops
 
 
+NF_PATTERNS = ['cell', 'cell', 'cell', 'cells', 'row', 'channel', 'time', 'all']
+
+
+def gen_nonfinite(rng, init, pattern=None, kinds=None):
+    """round 7: the cells [i, j, t, kind] of the initial dataset that hold a non-finite measurement:
+    a single cell, a few cells, a whole observation row, a whole channel, a whole time slice, every
+    cell; kind NaN (a missing sample), +inf, -inf or a mixture"""
+    m = init['meas']
+    no, nc, nt = len(m), len(m[0]), len(m[0][0])
+    pattern = pattern or rng.choice(NF_PATTERNS)
+    kinds = kinds or rng.choice([['nan'], ['nan'], ['nan'], ['inf'], ['-inf'], ['inf', '-inf'],
+                                 ['nan', 'inf'], ['nan', 'inf', '-inf']])
+    i0, j0, t0 = rng.randrange(no), rng.randrange(nc), rng.randrange(nt)
+    if pattern == 'cell':
+        pos = [(i0, j0, t0)]
+    elif pattern == 'cells':
+        allp = [(i, j, t) for i in range(no) for j in range(nc) for t in range(nt)]
+        pos = sorted(rng.sample(allp, min(len(allp), rng.randint(2, 4))))
+    elif pattern == 'row':
+        pos = [(i0, j, t) for j in range(nc) for t in range(nt)]
+    elif pattern == 'channel':
+        pos = [(i, j0, t) for i in range(no) for t in range(nt)]
+    elif pattern == 'time':
+        pos = [(i, j, t0) for i in range(no) for j in range(nc)]
+    else:
+        pos = [(i, j, t) for i in range(no) for j in range(nc) for t in range(nt)]
+    single = rng.choice(kinds)
+    mixed = len(kinds) > 1 and rng.random() < 0.6
+    return [[i, j, t, rng.choice(kinds) if mixed else single] for (i, j, t) in pos]
+
+
+def add_nonfinite(rng, case, p=0.15):
+    """round 7: non-finite measurements are a value domain of every session"""
+    init = case['init']
+    if 'nonfinite' in init or rng.random() >= p:
+        return case
+    return dict(case, init=dict(init, nonfinite=gen_nonfinite(rng, init)))
+
+
+def _nonfinite_means(rng):
+    """round 7 template: one observation (time point) holds a non-finite cell / row, the design has
+    several conditions (bins): the means of the OTHER conditions (bins) must stay finite"""
+    if rng.random() < 0.6:
+        no = rng.choice([2, 3, 4, 5, 6])
+        init = gen_init(rng, False, no, rng.choice([1, 2, 3]), special=False)
+        ng = rng.choice([2, 2, 3]) if no > 2 else 2
+        col = [i % ng for i in range(no)]
+        rng.shuffle(col)
+        if len(set(col)) < 2:
+            col[0], col[-1] = 0, 1
+        init['obs'] = [['c', col if rng.random() < 0.5 else [['a', 'b', 'c'][x] for x in col]],
+                       ['r', list(range(no))]]
+        init['kinds']['obs:c'] = rng.choice(['list', 'array'])
+        init['kinds']['obs:r'] = rng.choice(['list', 'array'])
+        init['nonfinite'] = gen_nonfinite(rng, init, rng.choice(['cell', 'cell', 'row', 'cells']),
+                                          rng.choice([['nan'], ['nan'], ['inf'], ['-inf'], ['nan', 'inf']]))
+        pre = [gen_op(rng, rng.choice(['sort_by', 'copy', 'subset_channel', 'split_channel', 'odd_even']))] \
+            if rng.random() < 0.4 else []
+        return init, pre + [{'name': 'average_by', 'at': rng.randrange(2), 'k': 0},
+                            gen_op(rng, rng.choice(['tensor', 'split_obs', 'sort_by', 'average_by', 'df']))]
+    nt = rng.choice([2, 3, 4])
+    init = gen_init(rng, True, nt=nt, special=False)
+    init['time'] = [['time', sorted(rng.sample(range(0, 12), nt))]]
+    init['kinds']['time:time'] = 'array' if rng.random() < 0.75 else 'list'
+    init['nonfinite'] = gen_nonfinite(rng, init, rng.choice(['cell', 'cell', 'time', 'row', 'cells']),
+                                      rng.choice([['nan'], ['nan'], ['inf'], ['-inf'], ['inf', '-inf']]))
+    bins = {2: [[[0], [1]]], 3: [[[0, 1], [2]], [[0], [1, 2]], [[0, 2], [1]]],
+            4: [[[0, 1], [2, 3]], [[0, 2], [1, 3]], [[0], [1, 2, 3]], [[3, 0], [2, 1]]]}[nt]
+    return init, [{'name': 'bin_time', 'at': 0, 'k': 0, 'bins': rng.choice(bins)},
+                  gen_op(rng, rng.choice(['time_as_observations', 'time_as_channels', 'split_time', 'copy'])),
+                  gen_op(rng, rng.choice(['average_by', 'sort_by', 'subset_obs']))]
+
+
 def generate(rng, tier):
     lrng = random.Random(rng.getrandbits(64))       # layouts / dtypes: every case gets one (round 5)
+    nrng = random.Random(lrng.getrandbits(64))      # non-finite measurements (round 7)
+    for case in _generate(rng, tier, lrng, nrng):
+        yield case
+
+
+def _generate(rng, tier, lrng, nrng):
+    _al = globals()['add_layout']
+
+    def add_layout(r, case, p_c=0.35):          # noqa: F811  (every case: non-finite cells, then layout)
+        return _al(r, add_nonfinite(nrng, case), p_c)
+    for _ in range(120 if tier == 'quick' else 1500):
+        init, ops = _nonfinite_means(nrng)
+        yield add_layout(lrng, {'init': init, 'ops': ops})
     if tier == 'quick':
         n_dir, n_rand, maxlen = 900, 600, 8
     else:
@@ -622,9 +724,9 @@ def generate(rng, tier):
 def search(rng, tier):
     while True:
         r = rng.random()
-        init, ops = _directed(rng) if r < 0.35 else _sharing(rng) if r < 0.55 else \
-            _layout_conversions(rng) if r < 0.75 else _random_case(rng, 8)
-        yield add_layout(rng, {'init': init, 'ops': ops})
+        init, ops = _nonfinite_means(rng) if r < 0.12 else _directed(rng) if r < 0.35 else \
+            _sharing(rng) if r < 0.55 else _layout_conversions(rng) if r < 0.75 else _random_case(rng, 8)
+        yield add_layout(rng, add_nonfinite(rng, {'init': init, 'ops': ops}, p=0.25))
 
 
 # ------------------------------------------------------------------ the two sides
@@ -633,9 +735,24 @@ def run_impl(case):
     return R.run_session(case)
 
 
+NF_KINDS = ('nan', 'inf', '-inf')
+
+
 def model_requests(case):
-    init = {k: v for k, v in case['init'].items() if k not in ('kinds', 'layout', 'dtype')}
-    return [{'op': 'c11.session', 'init': init, 'ops': case['ops']}]
+    """the session on the proved model; round 7: with non-finite cells, also one INDICATOR session per
+    kind (measurement = 1 at the cells of that kind, 0 elsewhere): the model only gathers and averages
+    with positive weights, so a result cell of the indicator session is > 0 exactly when one of the
+    cells it was taken from / averaged over -- ITS OWN cells, by the proved theorems -- is of that kind"""
+    init = {k: v for k, v in case['init'].items() if k not in ('kinds', 'layout', 'dtype', 'nonfinite')}
+    reqs = [{'op': 'c11.session', 'init': init, 'ops': case['ops']}]
+    nfl = case['init'].get('nonfinite') or []
+    for kind in NF_KINDS:
+        if any(c[3] == kind for c in nfl):
+            cells = {(c[0], c[1], c[2]) for c in nfl if c[3] == kind}
+            ind = [[[1 if (i, j, t) in cells else 0 for t in range(len(ch))] for j, ch in enumerate(row)]
+                   for i, row in enumerate(init['meas'])]
+            reqs.append({'op': 'c11.session', 'init': dict(init, meas=ind), 'ops': case['ops']})
+    return reqs
 
 
 def _unlbl(j):
@@ -674,8 +791,38 @@ def _un_args(a):
     return out
 
 
+def _nf_merge(base, inds, inside=False):
+    """walk the base result and the indicator results in parallel; inside 'meas' / 'avg' / 'tensor' a
+    number becomes NaN / +-inf as IEEE arithmetic on its own cells demands (R.nf_combine)"""
+    if isinstance(base, dict):
+        return {k: _nf_merge(v, {kd: x[k] for kd, x in inds.items()}, inside or k in ('meas', 'avg', 'tensor'))
+                for k, v in base.items()}
+    if isinstance(base, list):
+        return [_nf_merge(v, {kd: x[n] for kd, x in inds.items()}, inside) for n, v in enumerate(base)]
+    if inside and isinstance(base, (int, float, Fraction)) and not isinstance(base, bool):
+        k = R.nf_combine([kd for kd, x in inds.items() if x > 0])
+        return R.NONFINITE[k] if k else base
+    return base
+
+
 def model_result(case, answers):
-    a = answers[0]
+    res = _model_result(answers[0])
+    nfl = case['init'].get('nonfinite') or []
+    kinds = [k for k in NF_KINDS if any(c[3] == k for c in nfl)]
+    if not kinds or 'model_error' in res or isinstance(res['init'], str):
+        return res
+    inds = {}
+    for k, a in zip(kinds, answers[1:]):
+        inds[k] = _model_result(a)
+        if 'model_error' in inds[k]:
+            return inds[k]
+    return {'init': _nf_merge(res['init'], {k: x['init'] for k, x in inds.items()}),
+            'steps': [{key: (_nf_merge(v, {k: x['steps'][n][key] for k, x in inds.items()})
+                             if key in ('out', 'ws') else v) for key, v in st.items()}
+                      for n, st in enumerate(res['steps'])]}
+
+
+def _model_result(a):
     if isinstance(a, dict) and 'model_error' in a:
         return a
     steps = []
@@ -839,6 +986,7 @@ def features(case, impl):
             _round3_branches(br, op, s, before)
             _round4_branches(br, op, s, before, share)
             _round5_branches(br, op, s)
+            _round7_branches(br, case, op, s, before)
             if out == 'inadmissible':
                 br.add('out:inadmissible')
                 continue
@@ -888,6 +1036,44 @@ def features(case, impl):
                     br.add('sort:temporal-large')
     f['branches'] = sorted(br)
     return f
+
+
+def _round7_branches(br, case, op, step, before):
+    """coverage tags of the round-7 input class (non-finite measurements), read off the real side's
+    canonical states: the operation was admissible and the dataset it was applied to holds such cells"""
+    import math
+    out, args = step['out'], step['args']
+    if not (isinstance(out, dict) and ('state' in out or 'query' in out)):
+        return
+    objs = before if op['name'] == 'merge' else \
+        [before[args['at']]] if isinstance(args, dict) and args.get('at', 0) < len(before) else []
+    for d in objs:
+        m = d['meas']
+        rows = [[x for ch in r for x in (ch if isinstance(ch, list) else [ch])] for r in m]
+        flat = [x for r in rows for x in r]
+        if any(math.isnan(x) for x in flat):
+            br.add('values:nan-cell')
+        if any(math.isinf(x) for x in flat):
+            br.add('values:inf-cell')
+        if any(r and all(not math.isfinite(x) for x in r) for r in rows) and len(rows) > 1:
+            br.add('values:nonfinite-row')
+        nc = len(m[0]) if m else 0
+        if nc > 1 and any(all(not math.isfinite(x) for r in m for x in (r[j] if isinstance(r[j], list) else [r[j]]))
+                          for j in range(nc)):
+            br.add('values:nonfinite-channel')
+    if 'query' in out and 'avg' in out['query']:
+        avg = out['query']['avg']
+        for j in range(len(avg[0]) if avg else 0):
+            colj = [a[j] for a in avg]
+            if any(math.isnan(x) for x in colj) and any(math.isfinite(x) for x in colj):
+                br.add('average:nan-other-group')      # the same channel: NaN for one condition, finite for another
+    if op['name'] == 'bin_time' and 'state' in out and objs:
+        res = out['state'][args['at'] + (1 if op.get('keep') else 0)]['meas']
+        for r in res:
+            for ch in r:
+                if isinstance(ch, list) and any(not math.isfinite(x) for x in ch) and \
+                        any(math.isfinite(x) for x in ch):
+                    br.add('bin:nonfinite-other-bin')
 
 
 def _round5_branches(br, op, step):
@@ -1014,7 +1200,7 @@ def nontrivial_key(case, impl):
         return ['rejected', case['init']['obs'], case['init']['chan'], case['init']['time']]
     if not any(isinstance(s['out'], dict) for s in impl['steps']):
         return None
-    return [case['init']['meas'], case['init']['obs'], case['ops']]
+    return [case['init']['meas'], case['init']['obs'], case['ops'], case['init'].get('nonfinite')]
 
 
 def shrink(case, still_fails):
@@ -1052,6 +1238,10 @@ def _drop(init, axis, p):
         if not init['temporal']:
             return init
         ni['meas'] = [[[v for t, v in enumerate(c) if t != p] for c in r] for r in m]
+    if init.get('nonfinite'):
+        a = ('obs', 'chan', 'time').index(axis)
+        ni['nonfinite'] = [[*(x - (1 if n == a and x > p else 0) for n, x in enumerate(c[:3])), c[3]]
+                           for c in init['nonfinite'] if c[a] != p]
     if init[axis] is not None:
         ni[axis] = [[k, col if isinstance(col, str) else [v for q, v in enumerate(col) if q != p]]
                     for k, col in init[axis]]
